@@ -314,6 +314,138 @@ fn fam_guided(ctx: &CaseCtx, cov: &mut Cov) -> CaseOut {
     out
 }
 
+/// Exact arithmetic model of the literal-only encoder (lc=3, lp=0, pb=2), used
+/// only to CONSTRUCT inputs: it lets a greedy search pick, byte by byte, literals
+/// that keep the range coder's carry undecided (a growing run of pending 0xFF
+/// bytes) and then resolve the run with or without a carry. Random inputs reach
+/// runs of 3-5; this reaches 10-14. The verdict still comes from running the real
+/// encoder on the constructed input.
+#[derive(Clone)]
+struct LitSim {
+    lit: Vec<[u16; 0x300]>,
+    is_match: [u16; 4],
+    low: u64,
+    range: u32,
+    cache_size: u64,
+    pos: usize,
+    prev: u8,
+    /// set when the last shift emitted bytes with a carry
+    last_carry: bool,
+}
+
+impl LitSim {
+    fn new() -> Self {
+        LitSim { lit: vec![[0x400; 0x300]; 8], is_match: [0x400; 4], low: 0, range: 0xFFFF_FFFF, cache_size: 1, pos: 0, prev: 0, last_carry: false }
+    }
+    fn shift(&mut self) {
+        if (self.low as u32) < 0xFF00_0000 || (self.low >> 32) != 0 {
+            self.last_carry = (self.low >> 32) != 0;
+            self.cache_size = 0;
+        }
+        self.cache_size += 1;
+        self.low = (self.low & 0x00FF_FFFF) << 8;
+    }
+    fn bit(&mut self, prob: &mut u16, bit: u32) {
+        let bound = (self.range >> 11) * (*prob as u32);
+        if bit == 0 {
+            self.range = bound;
+            *prob += (0x800 - *prob) >> 5;
+        } else {
+            self.low += bound as u64;
+            self.range -= bound;
+            *prob -= *prob >> 5;
+        }
+        while self.range < 0x0100_0000 {
+            self.range <<= 8;
+            self.shift();
+        }
+    }
+    fn literal(&mut self, b: u8) {
+        self.last_carry = false;
+        let mut p = self.is_match[self.pos & 3];
+        self.bit(&mut p, 0);
+        self.is_match[self.pos & 3] = p;
+        let ctx = (self.prev >> 5) as usize;
+        let mut sym = 1usize;
+        for i in (0..8).rev() {
+            let bit = ((b >> i) & 1) as u32;
+            let mut p = self.lit[ctx][sym];
+            self.bit(&mut p, bit);
+            self.lit[ctx][sym] = p;
+            sym = (sym << 1) | bit as usize;
+        }
+        self.prev = b;
+        self.pos += 1;
+    }
+}
+
+/// Build an input whose encoding contains a pending-0xFF run of about `target`
+/// bytes that is then resolved by a carry (or, if `want_carry` is false, without).
+fn adversarial_carry_input(rng: &mut Rng, target: u64, want_carry: bool) -> (Vec<u8>, u64) {
+    let mut sim = LitSim::new();
+    let mut out: Vec<u8> = Vec::new();
+    // random warm-up so the probabilities are not all fresh
+    for _ in 0..rng.range(0, 64) {
+        let b = rng.byte();
+        sim.literal(b);
+        out.push(b);
+    }
+    let mut best_run = 0u64;
+    for _ in 0..4000 {
+        // try every byte; prefer the one that leaves the longest undecided run
+        let mut best: Option<(u64, u8)> = None;
+        let start = rng.byte();
+        for k in 0..256u32 {
+            let b = start.wrapping_add(k as u8);
+            let mut t = sim.clone();
+            t.literal(b);
+            if want_carry && sim.cache_size >= target && t.last_carry {
+                // resolves the long run with a carry: done
+                out.push(b);
+                for _ in 0..rng.range(1, 16) {
+                    out.push(rng.byte());
+                }
+                return (out, sim.cache_size);
+            }
+            if !want_carry && sim.cache_size >= target && t.cache_size <= 2 && !t.last_carry {
+                out.push(b);
+                for _ in 0..rng.range(1, 16) {
+                    out.push(rng.byte());
+                }
+                return (out, sim.cache_size);
+            }
+            let score = t.cache_size;
+            if best.map_or(true, |(s, _)| score > s) {
+                best = Some((score, b));
+            }
+        }
+        let (score, b) = best.unwrap();
+        best_run = best_run.max(score);
+        sim.literal(b);
+        out.push(b);
+    }
+    (out, best_run)
+}
+
+/// inputs constructed to drive the range encoder through long pending-0xFF runs
+fn fam_adversarial(ctx: &CaseCtx, cov: &mut Cov) -> CaseOut {
+    let mut out = CaseOut::default();
+    let mut rng = ctx.rng();
+    let target = *rng.pick(&[2u64, 3, 5, 7, 8, 9, 10, 11, 12, 14]);
+    let want_carry = !rng.chance(1, 4);
+    let (data, run) = adversarial_carry_input(&mut rng, target, want_carry);
+    let enc = *rng.pick(&[0usize, 1, 2]);
+    let before = (cov.maxes.get("rc_cachesz").copied().unwrap_or(0), cov.get_named("rc.carries"));
+    let (sz, carries) = check_one(&mut out, cov, ctx, enc, 0, 6, &data, 1);
+    let _ = before;
+    cov.max("adversarial_pending_run_observed_by_hook", sz as u64);
+    cov.name(if want_carry { "adversarial.run_resolved_by_carry" } else { "adversarial.run_resolved_without_carry" }, 1);
+    cov.add("adversarial_run_length", (sz as u32).min(64), 1);
+    let _ = (run, carries);
+    out.sample = Some(J::obj().set("encoder", J::s(ENC[enc])).set("input_len", J::i(data.len())).set("pending_run_target", J::i(target)).set("pending_run_observed_by_hook", J::i(sz)).set("resolved_by_carry", J::Bool(want_carry)));
+    out
+}
+
 fn label(group: &str, i: u32) -> String {
     match group {
         "encoder" => ENC[i as usize].to_string(),
@@ -329,6 +461,9 @@ fn floors(_: Tier, cov: &Cov) -> Vec<String> {
     if cov.group_nonzero("encoder") < 5 || cov.group_nonzero("input_reader") < 5 || cov.group_nonzero("length_class") < 10 {
         m.push("encoder / reader / length grid incomplete".into());
     }
+    if cov.maxes.get("adversarial_pending_run_observed_by_hook").copied().unwrap_or(0) < 10 {
+        m.push("no pending-0xFF run of 10 or more bytes observed in the range encoder".into());
+    }
     if cov.get_named("rc.carries") == 0 {
         m.push("no carry observed in the range encoder".into());
     }
@@ -339,7 +474,7 @@ pub fn monitor(tier: Tier) -> Monitor {
     Monitor {
         id: "C04",
         level: "exploration",
-        rule: "cases = (input bytes, encoder in {lzma x 3 options, lzma2, xz}, input fragmentation in 5 patterns): a fixed grid over the boundary lengths 0/1/2/65535/65536/65537/131072/131073, seeded random cases (7 content kinds, lengths up to 1 MiB) and a hook-guided search that mutates inputs to maximise pending-0xFF runs and carries in the range encoder (RcShift events); every encoder output must (i) decode back with lzma-rs and the matching option, (ii) satisfy the reference decoder / strict LZMA2 reader / strict XZ parser incl. header fields and exact payload length, (iii) decode with liblzma; distinct by hash of (input, encoder, reader)",
+        rule: "cases = (input bytes, encoder in {lzma x 3 options, lzma2, xz}, input fragmentation in 5 patterns): a fixed grid over the boundary lengths 0/1/2/65535/65536/65537/131072/131073, seeded random cases (7 content kinds, lengths up to 1 MiB) a hook-guided search that mutates inputs to maximise pending-0xFF runs and carries in the range encoder (RcShift events), and inputs CONSTRUCTED with an exact arithmetic model of the literal coder so that the carry stays undecided for 2..14 output bytes and is then resolved with / without a carry (the RcShift hook confirms the run length the real encoder went through); every encoder output must (i) decode back with lzma-rs and the matching option, (ii) satisfy the reference decoder / strict LZMA2 reader / strict XZ parser incl. header fields and exact payload length, (iii) decode with liblzma; distinct by hash of (input, encoder, reader)",
         assumptions: vec![
             "WriteToHeader(Some(x)) with x != input length is a documented caller error and is not generated".into(),
             "independent conforming decoders = reference decoder (self-checked) and system liblzma".into(),
@@ -348,6 +483,7 @@ pub fn monitor(tier: Tier) -> Monitor {
             Family { name: "grid", count: 800, priority: true, enumerated: false, run: fam_grid },
             Family { name: "random", count: tier.pick(4_000, 200_000), priority: false, enumerated: false, run: fam_random },
             Family { name: "guided", count: tier.pick(150, 4000), priority: false, enumerated: false, run: fam_guided },
+            Family { name: "adversarial_carry", count: tier.pick(120, 4000), priority: true, enumerated: false, run: fam_adversarial },
         ],
         label,
         floors,
